@@ -37,6 +37,7 @@ type Program struct {
 	mu        sync.Mutex
 	srcMu     sync.Mutex
 	symIDs    map[string]int64
+	AssumedObls []AssumedObl
 }
 
 func shortName(s string) string {
